@@ -237,7 +237,7 @@ impl Memfs {
 
         // Validate the path itself
         if let Some(x) = guard.get_entry(&path) {
-            if entry.is_file() && !x.is_file() {
+            if entry.is_file() && (!x.is_file() || (x.is_symlink() && !entry.is_symlink())) {
                 return Err(PathError::is_not_file(&path).into());
             } else if entry.is_symlink() && !x.is_symlink() {
                 return Err(PathError::is_not_symlink(&path).into());
